@@ -56,10 +56,10 @@ PROPERTY = "C17"
 LEVEL = "exploration"
 RULE = ("IonQ: every placed letter (X/Y/Z powers at 14 special exponents, each +-1e-9 and +-1e-6, a generic one, "
         "global_shift 0/-0.5; H/CNOT/SWAP powers; XX/YY/ZZ powers; PauliStringPhasorGate over ALL Pauli strings of "
-        "length<=3 x coefficient +-1 x 8 exponent pairs; GPI/GPI2/MS/ZZ grids; 20 kinds of unsupported content) x every "
+        "length<=3 x coefficient +-1 x 9 exponent pairs; GPI/GPI2/MS/ZZ grids; 22 kinds of unsupported content) x every "
         "placement (dense, reversed, sparse up to qubit 5) alone, then all sequences of <=2 (quick) / <=3 (thorough) "
-        "letters of a representative placed alphabet x measurement layouts, native sequences, all mixed pairs; 40+ "
-        "measurement layouts; all ordered pairs/triples of a circuit pool as batches; results: ALL histograms over <=3 "
+        "letters of a representative placed alphabet x measurement layouts, native sequences, all mixed pairs; 39 "
+        "measurement layouts x 4 gate prefixes x 2 moment structures; all ordered pairs/triples of a circuit pool as batches; results: ALL histograms over <=3 "
         "qubits with counts in {0,1,2} (weights k/4 for the simulator) x every layout of ordered disjoint target "
         "subsets; closed loop Service/Sampler runs against an in-process reference IonQ API. AQT: all sequences of "
         "<=2/<=3 letters over Z/PhasedX/XX grids (+ rejected X/Y/CZ, measurement positions) x resolver. Pasqal: sequences "
@@ -98,7 +98,7 @@ OFFSETS = [0.0, 1e-9, -1e-9, 1e-6, -1e-6]
 P1 = [(0,), (2,), (5,)]
 P2 = [(0, 1), (1, 0), (0, 3), (3, 1), (2, 5), (5, 0)]
 P3 = [(0, 1, 2), (2, 0, 1), (3, 1, 0), (0, 2, 5), (5, 2, 0)]
-PLACEMENTS = {1: P1, 2: P2, 3: P3}
+PLACEMENTS = {0: [()], 1: P1, 2: P2, 3: P3}
 
 _G = {}  # alphabets, rebuilt per seed by _init
 
@@ -245,7 +245,7 @@ def build_layouts():
         Layout("all:0123", _one("all", (0, 1, 2, 3))),
         Layout("r:310", _one("r", (3, 1, 0))),
         Layout("a:1|b:0|c:2", [("a", (1,), None), ("b", (0,), None), ("c", (2,), None)]),
-        Layout("odd characters", [("a b,c", (2, 0), None), ("x:y", (1,), None), ("\x1d \x20", (3,), None)]),
+        Layout("odd characters", [("a b,c", (2, 0), None), ("x;y", (1,), None), ("\x1d \x20", (3,), None)]),
         Layout("sparse s:52", _one("s", (5, 2))),
         Layout("z:3|y:02|x:1", [("z", (3,), None), ("y", (0, 2), None), ("x", (1,), None)]),
         Layout("digits key", [("12", (1, 2), None), ("0", (0,), None)]),
@@ -313,25 +313,31 @@ def _check_measurement_metadata(md, expected, where):
         dec = RI.decode_measurement_metadata(md)
     except RI.PayloadRejected as e:
         return f"{where}: measurement metadata does not follow the documented format: {e}"
-    if dec != exp_pairs:
+    if sorted(dec) != sorted(exp_pairs):  # the order of the records carries no meaning (keys are looked up by name)
         return f"{where}: documented decoding of the metadata gives {dec!r}, circuit measures {exp_pairs!r}"
     keys = [k for k, _ in exp_pairs]
     if len(set(keys)) != len(keys):
-        return (f"{where}: accepted a circuit that measures key(s) {sorted(k for k in set(keys) if keys.count(k) > 1)} more than once; "
+        return ("REPEATED_KEY " f"{where}: accepted a circuit that measures key(s) {sorted(k for k in set(keys) if keys.count(k) > 1)} more than once; "
                 f"results carry one entry per key, so all but the last measurement are silently lost (metadata {md!r})")
     if any(inv and any(inv) for _, _, inv in expected):
-        return (f"{where}: accepted a measurement with a non-trivial invert_mask {[(k, inv) for k, _, inv in expected if inv]}; the payload "
+        return ("INVERT_MASK " f"{where}: accepted a measurement with a non-trivial invert_mask {[(k, inv) for k, _, inv in expected if inv]}; the payload "
                 f"has no place for it and results are returned un-inverted (silently altered)")
     # the way cirq_ionq decodes it (what the user will see), after the JSON trip through the API
     for variant, m2 in (("as sent", dict(md)), ("keys sorted", dict(sorted(md.items())))):
         m2 = _json_roundtrip({**m2, "shots": "7"})
         job = cirq_ionq.Job(None, {"id": "j", "status": "completed", "backend": "simulator", "metadata": m2, "stats": {"qubits": "9"}})
         got = job.measurement_dict()
-        if list(got.items()) != [(k, t) for k, t in exp_pairs] and dict(got) != dict(exp_pairs):
-            return f"{where}: Job.measurement_dict() ({variant}) gives {got!r}, circuit measures {exp_pairs!r}"
         if dict(got) != dict(exp_pairs) or any(list(got[k]) != t for k, t in exp_pairs):
             return f"{where}: Job.measurement_dict() ({variant}) gives {got!r}, circuit measures {exp_pairs!r}"
     return None
+
+
+def _meas_kind(err):
+    if err.startswith("REPEATED_KEY"):
+        return "ionq_repeated_measurement_key"
+    if err.startswith("INVERT_MASK"):
+        return "ionq_invert_mask_dropped"
+    return "measurement"
 
 
 def ionq_check_single(circuit, gate_ops, meas, must, n=None):
@@ -369,7 +375,7 @@ def ionq_check_single(circuit, gate_ops, meas, must, n=None):
                    f"max |diff| = {np.max(np.abs(Uref - E.phase_of(Uref, U) * U)):.3g}", kind="unitary")
     err = _check_measurement_metadata(prog.metadata, meas, "single")
     if err:
-        return bad(f"{err}\ncircuit: {circuit!r}", kind="measurement")
+        return bad(f"{err}\ncircuit: {circuit!r}", kind=_meas_kind(err))
     if any(k != "shots" and not (k.startswith("measurement") and k[11:].isdigit()) for k in prog.metadata):
         return bad(f"unexpected metadata keys {list(prog.metadata)}", kind="metadata_keys")
     if prog.settings or prog.compilation or prog.error_mitigation or prog.noise or prog.dry_run:
@@ -423,7 +429,7 @@ def ionq_check_many(circuits, gate_ops_list, meas_list, must):
     for i, meas in enumerate(meas_list):
         err = _check_measurement_metadata(mlist[i], meas, f"batch entry {i}")
         if err:
-            return bad(f"{err}\ncircuits: {circuits!r}", kind="measurement")
+            return bad(f"{err}\ncircuits: {circuits!r}", kind=_meas_kind(err))
         got = job.measurement_dict(circuit_index=i)
         if dict(got) != {k: list(t) for k, t, _ in meas}:
             return bad(f"Job.measurement_dict(circuit_index={i}) = {got!r}, circuit measures {meas!r}", kind="measurement")
@@ -448,16 +454,20 @@ def run_letter(case):
     lt = _G["letters"][li]
     qs = [LQ(x) for x in PLACEMENTS[lt.arity][pi]]
     op = lt.make(qs)
-    circuit = cirq.Circuit(op)
-    r1 = ionq_check_single(circuit, [op], [], lt.must)
+    pre = []
+    if not qs:  # zero-qubit op: give the circuit a qubit
+        qs = [LQ(1)]
+        pre = [cirq.X(qs[0])]
+    circuit = cirq.Circuit(pre + [op])
+    r1 = ionq_check_single(circuit, pre + [op], [], lt.must)
     if not r1.ok:
         r1.msg = f"letter {lt.name} on {qs}: " + r1.msg
         return r1
     # the same op followed by a measurement of everything in reverse order, through the batch serializer
     meas = [("out", tuple(q.x for q in reversed(qs)), None)]
     mop = cirq.measure(*reversed(qs), key="out")
-    c2 = cirq.Circuit(op, mop)
-    r2 = ionq_check_many([c2], [[op]], [meas], lt.must)
+    c2 = cirq.Circuit(pre + [op, mop])
+    r2 = ionq_check_many([c2], [pre + [op]], [meas], lt.must)
     if not r2.ok:
         r2.msg = f"letter {lt.name} on {qs} (batch of one): " + r2.msg
         return r2
@@ -587,7 +597,7 @@ def seq_cases(tier):
     if tier == "thorough":
         for kind, n in (("q", nq), ("n", nn)):
             for s in itertools.product(range(n), repeat=3):
-                out.append((kind, s, tuple(SEQ_LAYOUTS_3)))
+                out.append((kind, s, (3, 4)))
     else:
         # quick: length-3 sequences over a core sub-alphabet (one representative per payload gate kind)
         names = ["V(0)", "X^g(1)", "Si(0)", "Z^g(3)", "H(1)", "Y^g(0)", "CNOT(1,0)", "CNOT(3,0)", "SWAP(2,1)", "XX^g(0,1)",
@@ -645,7 +655,8 @@ def run_layout(case):
         if not r.ok:
             r.msg = f"layout {lay.name!r} prefix {prefix} variant {variant}: " + r.msg
             return r
-        r2 = ionq_check_many([circuit, cirq.Circuit(cirq.X(LQ(1)))], [ops, [cirq.X(LQ(1))]], [lay.meas, []], lay.must)
+        other = cirq_ionq.GPIGate(phi=0.2).on(LQ(1)) if (prefix == 3 or not ops) else cirq.X(LQ(1))  # same gateset as `circuit`
+        r2 = ionq_check_many([circuit, cirq.Circuit(other)], [ops, [other]], [lay.meas, []], lay.must)
         if not r2.ok:
             r2.msg = f"layout {lay.name!r} prefix {prefix} variant {variant} (batch): " + r2.msg
             return r2
@@ -795,3 +806,1041 @@ def batch_cases(tier):
 
 def describe_batch(case):
     return [_G["pool"][i][0] for i in case]
+
+
+# ------------------------------------------------------------------------------------------------------------------
+# IonQ results
+
+
+def result_layouts(n):
+    """Every list of <=3 pairwise disjoint, ordered, non-empty target subsets of range(n) (+ the empty layout)."""
+    subsets = [p for r in range(1, n + 1) for p in itertools.permutations(range(n), r)]
+    out = [[]]
+    out += [[a] for a in subsets]
+    for a in subsets:
+        for b in subsets:
+            if set(a) & set(b):
+                continue
+            out.append([a, b])
+            for c in subsets:
+                if (set(a) | set(b)) & set(c):
+                    continue
+                out.append([a, b, c])
+    return out
+
+
+_RL = {n: result_layouts(n) for n in (1, 2, 3)}
+
+
+def _bits_be(v, n):
+    """Independent re-derivation: format the big-endian integer as an n-character binary string, qubit j = s[j]."""
+    s = format(v, "b").zfill(n)
+    if len(s) != n:
+        raise core.HarnessError("value out of range")
+    return tuple(int(c) for c in s)
+
+
+def _key_value(bits, targets):
+    s = "".join(str(bits[t]) for t in targets)
+    return int(s, 2)
+
+
+class _FakeResultsClient:
+    """Stands for cirq_ionq.ionq_client._IonQClient in Job: only get_results is reached for completed jobs."""
+
+    def __init__(self, payload):
+        self.payload = payload
+
+    def get_results(self, job_id, sharpen=None, extra_query_params=None):
+        return self.payload
+
+    def get_job(self, job_id):
+        raise core.HarnessError("completed job must not be refreshed")
+
+
+def _job_dict(backend, n, md, shots):
+    return {"id": "job-1", "status": "completed", "backend": backend, "name": "n", "stats": {"qubits": str(n)},
+            "metadata": _json_roundtrip({**md, "shots": str(shots)})}
+
+
+def _check_qpu_views(res, n, shots_bits, layout, tag):
+    """res: QPUResult; shots_bits: list of per-shot bit tuples (multiset semantics)."""
+    total = len(shots_bits)
+    if res.repetitions() != total or res.num_qubits() != n:
+        return f"{tag}: repetitions/num_qubits = {res.repetitions()}/{res.num_qubits()}, expected {total}/{n}"
+    full = res.ordered_results()
+    exp_full = sorted(_key_value(b, range(n)) for b in shots_bits)
+    if sorted(full) != exp_full:
+        return f"{tag}: ordered_results() = {full}, expected multiset {exp_full}"
+    if {k: v for k, v in res.counts().items() if v} != dict(collections.Counter(exp_full)):
+        return f"{tag}: counts() = {dict(res.counts())}, expected {dict(collections.Counter(exp_full))}"
+    keys = [f"k{j}" for j in range(len(layout))]
+    per_key = {}
+    for key, targets in zip(keys, layout):
+        got = res.ordered_results(key)
+        if len(got) != total:
+            return f"{tag}: ordered_results({key}) has {len(got)} entries for {total} shots"
+        # "arbitrarily but consistently ordered": entry i of every view belongs to the same shot
+        exp = [_key_value(_bits_be(v, n), targets) for v in full]
+        if list(got) != exp:
+            return f"{tag}: ordered_results({key}) = {list(got)} for targets {targets}; from ordered_results() = {full} expected {exp}"
+        cnt = res.counts(key)
+        if {k: v for k, v in cnt.items() if v} != dict(collections.Counter(exp)):
+            return f"{tag}: counts({key}) = {dict(cnt)} for targets {targets}, expected {dict(collections.Counter(exp))}"
+        per_key[key] = exp
+    try:
+        res.ordered_results("nokey")
+        return f"{tag}: unknown key accepted by ordered_results"
+    except ValueError:
+        pass
+    try:
+        res.counts("nokey")
+        return f"{tag}: unknown key accepted by counts"
+    except ValueError:
+        pass
+    if not layout:
+        try:
+            res.to_cirq_result()
+        except ValueError:
+            return None
+        return f"{tag}: to_cirq_result without measurement keys must raise ValueError"
+    cr = res.to_cirq_result()
+    if set(cr.measurements) != set(keys):
+        return f"{tag}: to_cirq_result keys {set(cr.measurements)} != {set(keys)}"
+    rows = []
+    for i in range(total):
+        row = []
+        for key, targets in zip(keys, layout):
+            m = cr.measurements[key]
+            if m.shape != (total, len(targets)):
+                return f"{tag}: to_cirq_result()[{key}] has shape {m.shape}, expected {(total, len(targets))}"
+            row.append(tuple(int(x) for x in m[i]))
+        rows.append(tuple(row))
+    exp_rows = [tuple(tuple(b[t] for t in targets) for targets in layout) for b in shots_bits]
+    if sorted(rows) != sorted(exp_rows):
+        return f"{tag}: to_cirq_result joint rows {sorted(rows)} != expected {sorted(exp_rows)} (layout {layout})"
+    return None
+
+
+def run_qpu_hist(case):
+    n, hist, zero_entries = case
+    total = sum(hist)
+    shots_bits = []
+    for v, c in enumerate(hist):
+        shots_bits += [_bits_be(v, n)] * c
+    counts_be = {v: c for v, c in enumerate(hist) if c or zero_entries}
+    # the API's answer for the same experiment: little-endian keys, relative frequencies (strings or floats)
+    api = {}
+    for v, c in enumerate(hist):
+        if c:
+            k = RI.bits_to_le_key(_bits_be(v, n))
+            api[str(k)] = (str(c / total) if (v % 2) else c / total)
+    nl = 0
+    for layout in _RL[n]:
+        md_dict = {f"k{j}": list(t) for j, t in enumerate(layout)}
+        res = cirq_ionq.QPUResult(dict(counts_be), n, md_dict)
+        err = _check_qpu_views(res, n, shots_bits, layout, f"QPUResult(counts={counts_be}, n={n}, layout={layout})")
+        if err:
+            return bad(err, kind="qpu_result")
+        md = RI.encode_measurement_metadata([(f"k{j}", t) for j, t in enumerate(layout)])
+        job = cirq_ionq.Job(_FakeResultsClient(dict(api)), _job_dict("qpu.aria-1", n, md, total))
+        jr = job.results()
+        if not isinstance(jr, cirq_ionq.QPUResult):
+            return bad(f"Job.results() on a qpu backend returned {type(jr)}", kind="job_results")
+        if dict(jr.measurement_dict()) != md_dict:
+            return bad(f"Job.results().measurement_dict() = {jr.measurement_dict()!r} != {md_dict!r}", kind="job_results")
+        err = _check_qpu_views(jr, n, shots_bits, layout, f"Job.results() for API histogram {api} (little-endian), n={n}, layout={layout}")
+        if err:
+            return bad(err, kind="job_results")
+        nl += 1
+    return good(nontrivial=(total >= 2 or sum(1 for c in hist if c) >= 2), layouts=nl)
+
+
+def qpu_cases(tier):
+    out = []
+    for n in (1, 2, 3):
+        for hist in itertools.product((0, 1, 2), repeat=2 ** n):
+            if sum(hist) == 0:
+                continue
+            if n == 3 and tier == "quick" and sum(1 for c in hist if c) > 4:
+                continue
+            out.append((n, hist, 0))
+            if n <= 2:
+                out.append((n, hist, 1))
+    return out
+
+
+def _compositions(total, parts):
+    if parts == 1:
+        yield (total,)
+        return
+    for i in range(total + 1):
+        for rest in _compositions(total - i, parts - 1):
+            yield (i,) + rest
+
+
+def _sim_distribution(res, layout, reps, override):
+    """Exact distribution of SimulatorResult.to_cirq_result over ALL scripted PRNG paths."""
+    keys = [f"k{j}" for j in range(len(layout))]
+    dist = collections.defaultdict(float)
+    npaths = 0
+
+    def run(ch):
+        prng = ScriptedRandomState(ch)
+        prng.vector_mode = "dfs"
+        if override:
+            return res.to_cirq_result(seed=prng, override_repetitions=reps)
+        return res.to_cirq_result(seed=prng)
+
+    for ch, cr in explore(run, max_paths=5000):
+        rec = []
+        for i in range(reps):
+            rec.append(tuple(tuple(int(x) for x in cr.measurements[k][i]) for k in keys))
+        for k, t in zip(keys, layout):
+            if cr.measurements[k].shape != (reps, len(t)):
+                raise core.HarnessError(f"shape {cr.measurements[k].shape}")
+        dist[tuple(rec)] += ch.weight
+        npaths += 1
+    return dict(dist), npaths
+
+
+def run_sim_hist(case):
+    n, quarters = case
+    probs = {v: k / 4 for v, k in enumerate(quarters) if k}
+    paths = 0
+    for layout in _RL[n]:
+        md_dict = {f"k{j}": list(t) for j, t in enumerate(layout)}
+        keys = list(md_dict)
+        api = {str(RI.bits_to_le_key(_bits_be(v, n))): (p if v % 2 else str(p)) for v, p in probs.items()}
+        md = RI.encode_measurement_metadata([(k, t) for k, t in md_dict.items()])
+        direct = cirq_ionq.SimulatorResult(dict(probs), n, md_dict, repetitions=2)
+        job = cirq_ionq.Job(_FakeResultsClient(api), _job_dict("simulator", n, md, 2))
+        via_job = job.results()
+        if not isinstance(via_job, cirq_ionq.SimulatorResult):
+            return bad(f"Job.results() on the simulator backend returned {type(via_job)}", kind="job_results")
+        for tag, res in (("SimulatorResult", direct), (f"Job.results() for API probabilities {api} (little-endian)", via_job)):
+            tag = f"{tag} probs={probs} n={n} layout={layout}"
+            if res.num_qubits() != n or res.repetitions() != 2 or dict(res.measurement_dict()) != md_dict:
+                return bad(f"{tag}: num_qubits/repetitions/measurement_dict wrong: {res.num_qubits()} {res.repetitions()} {res.measurement_dict()}", kind="sim_result")
+            if {k: v for k, v in res.probabilities().items() if v} != probs:
+                return bad(f"{tag}: probabilities() = {res.probabilities()}", kind="sim_result")
+            joint = collections.defaultdict(float)
+            for v, p in probs.items():
+                b = _bits_be(v, n)
+                joint[tuple(tuple(b[t] for t in tg) for tg in layout)] += p
+            for key, tg in md_dict.items():
+                exp = collections.defaultdict(float)
+                for v, p in probs.items():
+                    exp[_key_value(_bits_be(v, n), tg)] += p
+                got = res.probabilities(key)
+                if set(got) != set(exp) or any(abs(got[k] - exp[k]) > 1e-12 for k in exp):
+                    return bad(f"{tag}: probabilities({key}) = {got} for targets {tg}, expected {dict(exp)}", kind="sim_result")
+            try:
+                res.probabilities("nokey")
+                return bad(f"{tag}: unknown key accepted", kind="sim_result")
+            except ValueError:
+                pass
+            if not layout:
+                try:
+                    res.to_cirq_result(seed=1)
+                    return bad(f"{tag}: to_cirq_result without keys must raise ValueError", kind="sim_result")
+                except ValueError:
+                    continue
+            for reps, override in ((2, False), (1, True)):
+                dist, npaths = _sim_distribution(res, layout, reps, override)
+                paths += npaths
+                exp = collections.defaultdict(float)
+                for combo in itertools.product(joint.items(), repeat=reps):
+                    w = 1.0
+                    for _, p in combo:
+                        w *= p
+                    exp[tuple(r for r, _ in combo)] += w
+                if set(dist) != set(exp) or any(abs(dist[k] - exp[k]) > 1e-12 for k in exp):
+                    return bad(f"{tag}: exact sampling distribution of to_cirq_result (repetitions={reps}) = {dist}, expected {dict(exp)}", kind="sim_sampling")
+    return good(nontrivial=len(probs) >= 2, paths=paths, layouts=len(_RL[n]))
+
+
+def sim_cases(tier):
+    out = []
+    for n in (1, 2, 3):
+        for comp in _compositions(4, 2 ** n):
+            if n == 3 and tier == "quick" and sum(1 for c in comp if c) > 2:
+                continue
+            out.append((n, comp))
+    return out
+
+
+def job_batch_cases():
+    """Batches of two / three sub-results with different qubit counts, layouts and backends."""
+    items = [(1, (1, 2), [(0,)]), (2, (0, 1, 2, 1), [(1, 0)]), (2, (2, 0, 0, 2), [(1,), (0,)]), (3, (0, 1, 0, 0, 2, 0, 1, 0), [(2, 0), (1,)]),
+             (3, (1, 0, 0, 1, 0, 0, 0, 2), [(0, 1, 2)]), (3, (0, 0, 0, 0, 0, 0, 4, 0), [])]
+    out = []
+    for backend in ("qpu", "sim"):
+        for r in (2, 3):
+            for combo in itertools.product(range(len(items)), repeat=r):
+                out.append((backend, combo))
+    return out, items
+
+
+_JB_ITEMS = job_batch_cases()[1]
+
+
+def run_job_batch(case):
+    backend, combo = case
+    subs = [_JB_ITEMS[i] for i in combo]
+    shots = 4
+    api = {}
+    mlist = []
+    qn = []
+    for j, (n, hist, layout) in enumerate(subs):
+        tot = sum(hist)
+        h = {}
+        for v, c in enumerate(hist):
+            if c:
+                h[str(RI.bits_to_le_key(_bits_be(v, n)))] = c / tot
+        api[f"child-{j:04d}"] = h
+        mlist.append(RI.encode_measurement_metadata([(f"k{i}", t) for i, t in enumerate(layout)]))
+        qn.append(n)
+    md = {"measurements": json.dumps(mlist), "qubit_numbers": json.dumps(qn)}
+    job = cirq_ionq.Job(_FakeResultsClient(api), _job_dict("qpu.forte-1" if backend == "qpu" else "simulator", max(qn), md, shots))
+    rs = job.results()
+    if not isinstance(rs, list) or len(rs) != len(subs):
+        return bad(f"batch of {len(subs)} returned {type(rs)} of length {len(rs) if isinstance(rs, list) else '-'}", kind="job_batch")
+    for j, ((n, hist, layout), res) in enumerate(zip(subs, rs)):
+        tot = sum(hist)
+        tag = f"batch result {j} of {case}: API {api[f'child-{j:04d}']} n={n} layout={layout}"
+        md_dict = {f"k{i}": list(t) for i, t in enumerate(layout)}
+        if res.num_qubits() != n or dict(res.measurement_dict()) != md_dict:
+            return bad(f"{tag}: num_qubits {res.num_qubits()} / measurement_dict {res.measurement_dict()}", kind="job_batch")
+        if backend == "qpu":
+            shots_bits = []
+            for v, c in enumerate(hist):
+                shots_bits += [_bits_be(v, n)] * round(shots * c / tot)
+            err = _check_qpu_views(res, n, shots_bits, layout, tag)
+            if err:
+                return bad(err, kind="job_batch")
+        else:
+            for key, tg in md_dict.items():
+                exp = collections.defaultdict(float)
+                for v, c in enumerate(hist):
+                    if c:
+                        exp[_key_value(_bits_be(v, n), tg)] += c / tot
+                got = res.probabilities(key)
+                if set(got) != set(exp) or any(abs(got[k] - exp[k]) > 1e-12 for k in exp):
+                    return bad(f"{tag}: probabilities({key}) = {got}, expected {dict(exp)}", kind="job_batch")
+            if res.repetitions() != shots:
+                return bad(f"{tag}: repetitions {res.repetitions()}", kind="job_batch")
+    return good(nontrivial=True)
+
+
+def run_sim_normalisation(case):
+    """Documented: weights within 1e-5 of 1 are normalised; otherwise numpy's own ValueError."""
+    i = case
+    eps = [4e-6, -4e-6, 1e-3][i]
+    probs = {0: 0.5 + eps, 3: 0.25, 1: 0.25}
+    res = cirq_ionq.SimulatorResult(probs, 2, {"k0": [1, 0]}, repetitions=1)
+    try:
+        dist, _ = _sim_distribution(res, [(1, 0)], 1, False)
+    except ValueError:
+        if i == 2:
+            return Res(skipped=True, nontrivial=False)
+        return bad(f"weights summing to 1{eps:+g} must be normalised (documented atol 1e-5)", kind="sim_norm")
+    if i == 2:
+        return bad("weights summing to 1.001 were silently accepted", kind="sim_norm")
+    tot = sum(probs.values())
+    exp = {(((0, 0),),): (0.5 + eps) / tot, (((1, 1),),): 0.25 / tot, (((1, 0),),): 0.25 / tot}
+    if set(dist) != set(exp) or any(abs(dist[k] - exp[k]) > 1e-12 for k in exp):
+        return bad(f"normalised sampling distribution {dist} != {exp}", kind="sim_norm")
+    return good(nontrivial=True)
+
+
+# ------------------------------------------------------------------------------------------------------------------
+# closed loop: Service / Sampler against an in-process reference IonQ API
+
+
+class _Resp:
+    def __init__(self, payload, status=200):
+        self._p = payload
+        self.status_code = status
+        self.ok = status == 200
+        self.reason = "fake"
+        self.text = payload if isinstance(payload, str) else json.dumps(payload)
+
+    def json(self):
+        return self._p
+
+    def raise_for_status(self):
+        if not self.ok:
+            raise _real_requests.HTTPError(self.reason)
+
+
+class FakeIonQApi:
+    """requests-level stand-in for https://api.ionq.co/v0.4 that EXECUTES the submitted program with mc.ref.ionq."""
+    codes = _real_requests.codes
+    RequestException = _real_requests.RequestException
+
+    def __init__(self):
+        self.jobs = {}
+        self.bodies = []
+
+    def post(self, url, json=None, headers=None, **kw):
+        if not url.endswith("/v0.4/jobs"):
+            raise core.HarnessError(f"unexpected POST {url}")
+        body = _json_roundtrip(json)
+        self.bodies.append(body)
+        jid = f"job-{len(self.jobs)}"
+        typ = body.get("type")
+        inp = body["input"]
+        gateset, n = RI.check_header(inp)
+        if typ == "ionq.circuit.v1":
+            hists = [RI.ideal_histogram(RI.program_unitary(inp), n)]
+        elif typ == "ionq.multi-circuit.v1":
+            hists = [RI.ideal_histogram(U, n) for U in RI.program_unitaries(inp)]
+        else:
+            raise RI.PayloadRejected(f"unknown job type {typ!r}")
+        if body.get("backend") not in ("simulator", "qpu") and not str(body.get("backend")).startswith("qpu."):
+            raise RI.PayloadRejected(f"unknown backend {body.get('backend')!r}")
+        if not isinstance(body.get("metadata"), dict) or any(not isinstance(v, str) for v in body["metadata"].values()):
+            raise RI.PayloadRejected(f"metadata must map strings to strings: {body.get('metadata')!r}")
+        self.jobs[jid] = {"body": body, "hists": hists, "multi": typ == "ionq.multi-circuit.v1", "n": n}
+        return _Resp({"id": jid, "status": "ready"})
+
+    def get(self, url, headers=None, params=None, **kw):
+        parts = url.split("/v0.4/jobs/")[1].split("/")
+        j = self.jobs[parts[0]]
+        if len(parts) == 1:
+            b = j["body"]
+            return _Resp({"id": parts[0], "status": "completed", "backend": b["backend"], "name": b.get("name", ""),
+                          "metadata": b["metadata"], "stats": {"qubits": j["n"]}})
+        if parts[1:] == ["results", "probabilities"] and not j["multi"]:
+            return _Resp(dict(j["hists"][0]))
+        if parts[1:] == ["results", "probabilities", "aggregated"] and j["multi"]:
+            return _Resp({f"{parts[0]}-child-{i:03d}": dict(h) for i, h in enumerate(j["hists"])})
+        raise core.HarnessError(f"unexpected GET {url}")
+
+
+class _Patched:
+    def __init__(self, mod, name, value):
+        self.mod, self.name, self.value = mod, name, value
+
+    def __enter__(self):
+        self.old = getattr(self.mod, self.name)
+        setattr(self.mod, self.name, self.value)
+        return self.value
+
+    def __exit__(self, *a):
+        setattr(self.mod, self.name, self.old)
+
+
+def _born_records(gate_ops, n, meas):
+    """Reference distribution over records ((bits of key 1), (bits of key 2), ...) of the circuit run from |0..0>."""
+    U = _ref_unitary(gate_ops, n)
+    psi = U[:, 0]
+    dist = collections.defaultdict(float)
+    for i in range(2 ** n):
+        p = float(abs(psi[i]) ** 2)
+        if p > 1e-12:
+            b = _bits_be(i, n)
+            dist[tuple(tuple(b[t] for t in ts) for _, ts, _ in meas)] += p
+    return dict(dist)
+
+
+def _dist_from_recorded(prng, idx, result, keys, reps):
+    """With the covering sample of ScriptedRandomState, row j of the result is supported outcome j (probability pv[opts[j]])."""
+    nvals, pv, k = prng.recorded[idx]
+    opts = [i for i in range(nvals) if pv[i] > 1e-12]
+    if k != reps or reps < len(opts):
+        raise core.HarnessError(f"covering sample too short: {reps} repetitions for {len(opts)} outcomes")
+    dist = collections.defaultdict(float)
+    for j, o in enumerate(opts):
+        rec = tuple(tuple(int(x) for x in result.measurements[key][j]) for key in keys)
+        dist[rec] += float(pv[o])
+    return dict(dist)
+
+
+def _cmp_dist(got, exp, atol=1e-7):
+    for k in set(got) | set(exp):
+        if abs(got.get(k, 0.0) - exp.get(k, 0.0)) > atol:
+            return False
+    return True
+
+
+LOOP_LAYOUTS = [1, 3, 4, 7]
+
+
+def loop_cases(tier):
+    A = _G["seq_qis"]
+    nq = len(A)
+    names1 = None
+    out = []
+    core_names = ["X(0)", "V(1)", "X^g(3)", "H(0)", "H(1)", "Y^g(0)", "S(1)", "CNOT(0,1)", "CNOT(1,0)", "CNOT(3,0)", "SWAP(2,1)",
+                  "XX^g(3,1)", "ZZ^g(0,1)", "phasor(XZ)(2,0)", "phasor(YIZ)(3,0,1)", "phasor(-ZY)(1,3)", "rx(3)", "Vi(0)"]
+    idx = [i for i, a in enumerate(A) if a[0] in core_names]
+    for li in LOOP_LAYOUTS:
+        for i in range(nq):
+            if A[i][2]:
+                out.append(("sim", "q", (i,), li))
+        for s in itertools.product(idx, repeat=2):
+            out.append(("sim", "q", s, li))
+    if tier == "thorough":
+        for s in itertools.product(idx, repeat=3):
+            out.append(("sim", "q", s, 3))
+    N = _G["seq_native"]
+    for s in itertools.product(range(len(N)), repeat=2):
+        out.append(("sim", "n", s, 3))
+    # qpu target: dyadic circuits (probabilities k/4) so that round(repetitions * p) is exact
+    dy = [i for i, a in enumerate(A) if a[0] in ("X(0)", "H(0)", "H(1)", "V(3)", "CNOT(0,1)", "CNOT(1,0)", "SWAP(2,1)", "Y(1)", "Z(0)", "CNOT(3,0)")]
+    for li in LOOP_LAYOUTS:
+        for s in itertools.product(dy, repeat=2):
+            out.append(("qpu", "q", s, li))
+    return out
+
+
+def run_loop(case):
+    target, kind, seq, li = case
+    A = _G["seq_qis"] if kind == "q" else _G["seq_native"]
+    ops = [A[i][1] for i in seq]
+    lay = _G["layouts"][li]
+    circuit = cirq.Circuit(ops + lay.ops())
+    n = _n_qubits(circuit)
+    keys = [k for k, _, _ in lay.meas]
+    exp = _born_records(ops, n, lay.meas)
+    api = FakeIonQApi()
+    with _Patched(_ionq_client_mod, "requests", api):
+        service = cirq_ionq.Service(remote_host="http://example.com", api_key="key")
+        if target == "sim":
+            reps = 2 ** n
+            prng = ScriptedRandomState(None)
+            res = service.run(circuit, repetitions=reps, target="simulator", seed=prng, name="c17")
+            got = _dist_from_recorded(prng, 0, res, keys, reps)
+            if not _cmp_dist(got, exp):
+                return bad(f"Service.run on the reference IonQ API: record distribution {got} != Born distribution {exp}\ncircuit {circuit!r}\n"
+                           f"request body {api.bodies[-1]!r}", kind="loop")
+            # batch of [circuit, circuit reversed gate order] through run_batch
+            ops2 = list(reversed(ops))
+            c2 = cirq.Circuit(ops2 + lay.ops())
+            prng = ScriptedRandomState(None)
+            rs = service.run_batch([circuit, c2], repetitions=reps, target="simulator", seed=prng)
+            if len(rs) != 2:
+                return bad(f"run_batch returned {len(rs)} results for 2 circuits", kind="loop")
+            for j, (r_, o_) in enumerate(zip(rs, (ops, ops2))):
+                got = _dist_from_recorded(prng, j, r_, keys, reps)
+                e_ = _born_records(o_, n, lay.meas)
+                if not _cmp_dist(got, e_):
+                    return bad(f"Service.run_batch entry {j}: record distribution {got} != Born distribution {e_}\nbody {api.bodies[-1]!r}", kind="loop")
+            return good(nontrivial=len(exp) >= 2, runs=3)
+        else:
+            reps = 4
+            res = service.run(circuit, repetitions=reps, target="qpu", name="c17")
+            got = collections.Counter(tuple(tuple(int(x) for x in res.measurements[k][i]) for k in keys) for i in range(reps))
+            want = {r: round(p * reps) for r, p in exp.items()}
+            if any(abs(p * reps - round(p * reps)) > 1e-9 for p in exp.values()):
+                raise core.HarnessError("non-dyadic circuit in the qpu loop")
+            if dict(got) != {k: v for k, v in want.items() if v}:
+                return bad(f"Service.run(target=qpu): shot records {dict(got)} != expected counts {want}\ncircuit {circuit!r}\nbody {api.bodies[-1]!r}", kind="loop")
+            return good(nontrivial=len(exp) >= 2, runs=1)
+
+
+def run_loop_sampler(case):
+    """cirq_ionq.Sampler.run_sweep with a parameterised circuit: one job per resolver, results in resolver order."""
+    i = case
+    a, b = sympy.Symbol("a"), sympy.Symbol("b")
+    q = LQ.range(3)
+    circuits = [
+        (cirq.Circuit(cirq.X(q[0]) ** a, cirq.CNOT(q[0], q[2]), cirq.measure(q[2], q[0], key="m")), [("m", (2, 0), None)]),
+        (cirq.Circuit(cirq.Y(q[1]) ** a, (cirq.XX ** b).on(q[1], q[0]), cirq.measure(q[0], key="x"), cirq.measure(q[1], key="y")), [("x", (0,), None), ("y", (1,), None)]),
+        (cirq.Circuit(cirq.PauliStringPhasorGate(cirq.DensePauliString("XY"), exponent_neg=a).on(q[1], q[0]), cirq.measure(q[1], q[0], key="p")), [("p", (1, 0), None)]),
+    ]
+    circuit, meas = circuits[i]
+    sweep = [{"a": 0.5, "b": 0.25}, {"a": 1.0, "b": 0.5}, {"a": 0.3, "b": 1.3}]
+    n = _n_qubits(circuit)
+    reps = 2 ** n
+    api = FakeIonQApi()
+    with _Patched(_ionq_client_mod, "requests", api):
+        service = cirq_ionq.Service(remote_host="http://example.com", api_key="key")
+        prng = ScriptedRandomState(None)
+        sampler = service.sampler(target="simulator", seed=prng)
+        rs = sampler.run_sweep(circuit, params=sweep, repetitions=reps)
+    if len(rs) != len(sweep):
+        return bad(f"run_sweep returned {len(rs)} results for {len(sweep)} resolvers", kind="loop_sampler")
+    keys = [k for k, _, _ in meas]
+    for j, (res, pr) in enumerate(zip(rs, sweep)):
+        resolved = cirq.resolve_parameters(circuit, pr)
+        gops = [op for op in resolved.all_operations() if not cirq.is_measurement(op)]
+        exp = _born_records(gops, n, meas)
+        got = _dist_from_recorded(prng, j, res, keys, reps)
+        if not _cmp_dist(got, exp):
+            return bad(f"Sampler.run_sweep resolver {pr}: record distribution {got} != {exp}", kind="loop_sampler")
+        if {str(k): v for k, v in res.params.param_dict.items()} != pr:
+            return bad(f"result {j} carries params {res.params} instead of {pr}", kind="loop_sampler")
+    return good(nontrivial=True, runs=len(sweep))
+
+
+# ------------------------------------------------------------------------------------------------------------------
+# AQT
+
+
+def build_aqt_letters(seed):
+    """[(name, op, accepted: documented as supported by get_op_string / the sampler)] on LineQubits 0..2."""
+    g = core.generic(seed)
+    g1 = core.generic(seed, 1)
+    a, b = sympy.Symbol("a"), sympy.Symbol("b")
+    q = LQ.range(3)
+    L = []
+
+    def lab(v):
+        return "g" if v is g else ("g1" if v is g1 else str(v))
+
+    for e in (0.25, -0.5, 1, g, 2.5):
+        for x in (0, 1, 2):
+            L.append((f"Z^{lab(e)}({x})", (cirq.Z ** e).on(q[x]), True))
+    L.append(("rz(g)(1)", cirq.rz(g1).on(q[1]), True))
+    for e in (0.5, 1, -0.25, g):
+        for p in (0, 0.5, 0.25, -0.5, g1):
+            if (e, p) in ((0.5, 0.25), (g, g1)):
+                xs = (0, 1, 2)
+            else:
+                xs = (2,) if p == 0.5 else (0,)
+            for x in xs:
+                L.append((f"PhX({lab(e)},{lab(p)})({x})", cirq.PhasedXPowGate(exponent=e, phase_exponent=p).on(q[x]), True))
+    L.append(("PhX(g,g1;shift)(1)", cirq.PhasedXPowGate(exponent=g, phase_exponent=g1, global_shift=-0.5).on(q[1]), True))
+    for e in (0.5, -0.25, g, 1):
+        for x, y in ((0, 1), (1, 0), (0, 2), (2, 1)):
+            L.append((f"XX^{lab(e)}({x},{y})", (cirq.XX ** e).on(q[x], q[y]), True))
+    L.append(("ms(g)(0,1)", cirq.ms(g1).on(q[0], q[1]), True))
+    L.append(("XX^g/shift(1,2)", cirq.XXPowGate(exponent=g, global_shift=-0.5).on(q[1], q[2]), True))
+    # parameterised (resolved by the resolver handed to _generate_json)
+    L.append(("Z^a(0)", (cirq.Z ** a).on(q[0]), True))
+    L.append(("PhX(a,b)(1)", cirq.PhasedXPowGate(exponent=a, phase_exponent=b).on(q[1]), True))
+    L.append(("XX^b(2,0)", (cirq.XX ** b).on(q[2], q[0]), True))
+    # not in the AQT vocabulary: documented ValueError of get_op_string
+    L.append(("X^g(0)", (cirq.X ** g).on(q[0]), False))
+    L.append(("Y^g(1)", (cirq.Y ** g).on(q[1]), False))
+    L.append(("X(2)", cirq.X(q[2]), False))
+    L.append(("CZ(0,1)", cirq.CZ(q[0], q[1]), False))
+    L.append(("YY^g(0,1)", (cirq.YY ** g).on(q[0], q[1]), False))
+    L.append(("H(0)", cirq.H(q[0]), False))
+    # measurements
+    L.append(("M(0,1,2;m)", cirq.measure(q[0], q[1], q[2], key="m"), True))
+    L.append(("M(1;x)", cirq.measure(q[1], key="x"), True))
+    return L
+
+
+AQT_RESOLVERS = [{"a": 0.3, "b": 0.7}, {"a": -1.25, "b": 0.5}]
+
+
+def _aqt_sampler():
+    return _aqt_sampler_mod.AQTSampler("workspace", "resource", "token")
+
+
+def _aqt_core_indices():
+    names = ("Z^0.25(0)", "Z^2.5(2)", "rz(g)(1)", "PhX(0.5,0.25)(0)", "PhX(0.5,0.25)(2)", "PhX(1,0)(0)", "PhX(-0.25,0.5)(2)", "XX^0.5(0,1)", "XX^0.5(1,0)",
+             "XX^-0.25(2,1)", "ms(g)(0,1)", "Z^a(0)", "PhX(a,b)(1)", "XX^b(2,0)", "X^g(0)", "M(0,1,2;m)", "M(1;x)")
+    L = _G["aqt"]
+    idx = [i for i, l in enumerate(L) if l[0] in names or l[0].startswith("PhX(g,g1)") or l[0].startswith("Z^g") or l[0].startswith("XX^g(")]
+    return idx
+
+
+def aqt_cases(tier):
+    n = len(_G["aqt"])
+    out = [(s, r, pad) for pad in (0, 1) for r in range(len(AQT_RESOLVERS)) for s in [()] + [(i,) for i in range(n)]]
+    out += [(s, 0, pad) for pad in (0, 1) for s in itertools.product(range(n), repeat=2)]
+    idx = _aqt_core_indices()
+    if tier == "thorough":
+        out += [(s, 1, 1) for s in itertools.product(range(n), repeat=2)]
+        out += [(s, 0, 1) for s in itertools.product(idx, repeat=3)]
+    else:
+        out += [(s, 0, 1) for s in itertools.product(idx[::2], repeat=3)]
+    return out
+
+
+def describe_aqt(case):
+    seq, r, pad = case
+    return {"letters": [_G["aqt"][i][0] for i in seq], "resolver": AQT_RESOLVERS[r], "padded": pad}
+
+
+def _aqt_pad():
+    """A generic layer touching qubits 0..2, so that the circuit uses a dense register (the AQT sampler declares
+    number_of_qubits = len(circuit.all_qubits()))."""
+    return [cirq.PhasedXPowGate(exponent=0.5, phase_exponent=0.25 * (x + 1)).on(LQ(x)) for x in range(3)]
+
+
+def run_aqt(case):
+    seq, ri, pad = case
+    L = _G["aqt"]
+    ops = (_aqt_pad() if pad else []) + [L[i][1] for i in seq]
+    supported = all(L[i][2] for i in seq)
+    resolver = AQT_RESOLVERS[ri]
+    # keep program order: one op per moment (a measurement must stay where the user put it)
+    circuit = cirq.Circuit([cirq.Moment([o]) for o in ops])
+    is_meas = [cirq.is_measurement(o) for o in ops]
+    n_meas = sum(is_meas)
+    sampler = _aqt_sampler()
+    names = (["pad"] if pad else []) + [L[i][0] for i in seq]
+    try:
+        js = sampler._generate_json(circuit, resolver)
+    except ValueError as e:
+        if supported:
+            return bad(f"AQT: supported circuit {names} rejected by _generate_json: {e}", kind="aqt_rejected")
+        return Res(skipped=True, nontrivial=False, counters={"rejected": 1})
+    except RuntimeError as e:
+        if not ops:
+            return Res(skipped=True, nontrivial=False, counters={"rejected": 1})  # documented: empty circuit
+        return bad(f"AQT: RuntimeError for non-empty circuit {names}: {e}", kind="aqt_rejected")
+    except AttributeError as e:
+        if n_meas:
+            return bad(f"AQT: _generate_json crashes on a circuit containing a measurement ({names}): AttributeError: {e}. get_op_string documents "
+                       f"MeasurementGate as supported, the 'Meas' op string is part of the documented JSON format and the AQT docs allow exactly "
+                       f"one measurement at the end of the circuit.", kind="aqt_measurement_crash")
+        raise
+    if not supported:
+        return bad(f"AQT: circuit {names} with a gate outside the AQT vocabulary was serialised: {js}", kind="aqt_altered")
+    try:
+        legacy = json.loads(js)
+        lops, lmeas = RA.legacy_ops(legacy)
+    except RA.PayloadRejected as e:
+        if n_meas >= 2 or (n_meas == 1 and not is_meas[-1]):
+            # the legacy list faithfully shows the misplaced measurement; the converter below has to refuse it
+            lops, lmeas = None, n_meas
+        else:
+            return bad(f"AQT: legacy JSON {js} of {names} violates the documented format: {e}", kind="aqt_payload")
+    nq = len(circuit.all_qubits())
+    resolved = cirq.resolve_parameters(circuit, resolver)
+    gate_ops = [o for o in resolved.all_operations() if not cirq.is_measurement(o)]
+    legal_meas = n_meas == 0 or (n_meas == 1 and is_meas[-1])
+    if lmeas != n_meas:
+        return bad(f"AQT: legacy JSON {js} holds {lmeas} measurement entries, circuit has {n_meas}", kind="aqt_payload")
+    try:
+        arn = sampler._parse_legacy_circuit_json(js)
+    except ValueError as e:
+        if legal_meas:
+            return bad(f"AQT: _parse_legacy_circuit_json refused {js} ({e}) although the measurement placement is legal", kind="aqt_parse")
+        return Res(skipped=True, nontrivial=False, counters={"rejected_measurement_placement": 1})
+    if not legal_meas:
+        return bad(f"AQT: circuit {names} with {n_meas} measurement(s) not (only) at the end was converted to {arn} "
+                   f"(documented ValueError)", kind="aqt_parse")
+    max_idx = max(q.x for q in circuit.all_qubits())
+    if max_idx >= nq:
+        # the sampler declares number_of_qubits = len(all_qubits): the API / local simulator refuses the out-of-range index
+        try:
+            for m, w in lops:
+                RI.expand(m, w, nq)
+        except RI.PayloadRejected:
+            return Res(skipped=True, nontrivial=False, counters={"api_would_reject_sparse": 1})
+        # only the measurement touches the out-of-range qubit; AQT measures the whole (dense) register anyway
+        return Res(skipped=True, nontrivial=False, counters={"sparse_measurement_only": 1})
+    Uref = _ref_unitary(gate_ops, nq)
+    U1 = RA.unitary(lops, nq)
+    if not E.eq_up_to_phase(Uref, U1, ATOL):
+        return bad(f"AQT: legacy JSON {js} does not implement {names} (resolver {resolver}): unitaries differ beyond phase", kind="aqt_unitary")
+    try:
+        aops = RA.arnica_ops(_json_roundtrip(arn))
+    except RA.PayloadRejected as e:
+        return bad(f"AQT: Arnica operation list {arn} violates the documented format: {e}", kind="aqt_payload")
+    U2 = RA.unitary(aops, nq)
+    if not E.eq_up_to_phase(Uref, U2, ATOL):
+        return bad(f"AQT: Arnica operation list {arn} does not implement {names} (resolver {resolver})", kind="aqt_unitary")
+    return good(nontrivial=len(gate_ops) >= 1, circuits=1)
+
+
+# --- the legacy -> Arnica converter on hand-written legacy lists (the documented input of the old API) -----------------
+
+LEGACY_ENTRIES = [["Z", 0.3, [0]], ["Z", -1.5, [2]], ["R", 0.5, 0.25, [1]], ["R", 1.0, 0.0, [0]], ["MS", 0.5, [0, 1]], ["MS", -0.2, [2, 0]],
+                  ["Meas"], ["A", 1.0, [0]]]
+
+
+def aqt_legacy_cases(tier):
+    n = len(LEGACY_ENTRIES)
+    out = []
+    for r in (1, 2, 3) if tier == "quick" else (1, 2, 3, 4):
+        out += list(itertools.product(range(n), repeat=r))
+    return out
+
+
+def run_aqt_legacy(case):
+    seq = [LEGACY_ENTRIES[i] for i in case]
+    js = json.dumps(seq)
+    unknown = any(e[0] == "A" for e in seq)
+    meas_pos = [i for i, e in enumerate(seq) if e[0] == "Meas"]
+    legal = (not meas_pos or meas_pos == [len(seq) - 1])
+    # an unknown op after a measurement may raise either documented ValueError
+    try:
+        arn = _aqt_sampler()._parse_legacy_circuit_json(js)
+    except ValueError:
+        if legal and not unknown:
+            return bad(f"AQT: legal legacy list {js} refused", kind="aqt_parse")
+        return Res(skipped=True, nontrivial=False)
+    if not legal or unknown:
+        return bad(f"AQT: legacy list {js} (misplaced measurement / unknown op) converted to {arn}", kind="aqt_parse")
+    try:
+        aops = RA.arnica_ops(_json_roundtrip(arn))
+    except RA.PayloadRejected as e:
+        return bad(f"AQT: converter output {arn} violates the documented Arnica format: {e}", kind="aqt_payload")
+    lops, _ = RA.legacy_ops(seq)
+    if not E.eq_up_to_phase(RA.unitary(lops, 3), RA.unitary(aops, 3), ATOL):
+        return bad(f"AQT: converter changed the meaning of {js}: {arn}", kind="aqt_unitary")
+    return good(nontrivial=len(lops) >= 1)
+
+
+# --- local simulator sampler: exact distribution of the sampled rows under a scripted numpy PRNG ---------------------
+
+
+class _ScriptedNumpyChoice:
+    """Replaces numpy.random.choice while the AQT local simulator samples (it uses the global numpy PRNG): every
+    draw becomes a choice point of the explorer, weighted with the probability vector the simulator itself computed."""
+
+    def __init__(self, chooser):
+        self.ch = chooser
+        self.calls = 0
+
+    def __call__(self, a, size=None, replace=True, p=None):
+        n = int(a) if isinstance(a, (int, np.integer)) else len(a)
+        if p is None:
+            raise core.HarnessError("unexpected un-weighted numpy.random.choice call")
+        pv = np.asarray(p, dtype=float)
+        k = 1 if size is None else int(np.prod(size))
+        if k != 1:
+            raise core.HarnessError(f"vectorised draw of size {size}")
+        self.calls += 1
+        opts = [i for i in range(n) if pv[i] > 1e-9]
+        c = self.ch.choose(len(opts), f"npchoice{n}", weights=[pv[i] for i in opts])
+        i = opts[c]
+        v = i if isinstance(a, (int, np.integer)) else a[i]
+        return v if size is None else np.array([v]).reshape(size)
+
+
+def aqt_local_cases(tier):
+    L = _G["aqt"]
+    gate_idx = [i for i, l in enumerate(L) if l[2] and not cirq.is_measurement(l[1])]
+    idx = [i for i in _aqt_core_indices() if i in gate_idx]
+    out = [((i,), r, pad) for pad in (0, 1) for i in gate_idx for r in range(len(AQT_RESOLVERS))]
+    out += [(s, 0, pad) for pad in (0, 1) for s in itertools.product(idx, repeat=2)]
+    # an explicit terminal measurement (documented as allowed): the result is still key 'm' over the whole register
+    meas_idx = [i for i, l in enumerate(L) if cirq.is_measurement(l[1])]
+    out += [((i, mi), 0, 1) for i in idx for mi in meas_idx]
+    if tier == "thorough":
+        out += [(s, 1, 1) for s in itertools.product(gate_idx, repeat=2)]
+        out += [(s, 0, 1) for s in itertools.product(idx[::2], repeat=3)]
+    return out
+
+
+def run_aqt_local(case):
+    seq, ri, pad = case
+    L = _G["aqt"]
+    ops = (_aqt_pad() if pad else []) + [L[i][1] for i in seq]
+    names = (["pad"] if pad else []) + [L[i][0] for i in seq]
+    resolver = AQT_RESOLVERS[ri]
+    circuit = cirq.Circuit(ops)
+    nq = len(circuit.all_qubits())
+    dense = max(q.x for q in circuit.all_qubits()) < nq
+    sampler = _aqt_sampler_mod.AQTSamplerLocalSimulator(simulate_ideal=True)
+
+    has_meas = any(cirq.is_measurement(o) for o in ops)
+
+    def run(ch):
+        with _Patched(np.random, "choice", _ScriptedNumpyChoice(ch)):
+            try:
+                return sampler.run_sweep(circuit, params=[resolver], repetitions=1)
+            except (AttributeError, KeyError) as e:
+                if has_meas:
+                    return e
+                raise
+
+    if not dense:
+        try:
+            run(None)
+        except IndexError:
+            return Res(skipped=True, nontrivial=False, counters={"sparse_rejected": 1})
+        return bad(f"AQT local simulator ran circuit {names} whose qubit indices exceed the declared qubit count {nq}", kind="aqt_local")
+    got = collections.defaultdict(float)
+    npaths = 0
+    for ch, results in explore(run, max_paths=64):
+        npaths += 1
+        if isinstance(results, Exception):
+            return bad(f"AQT local simulator crashes on a circuit with one terminal measurement ({names}): {type(results).__name__}: {results}. "
+                       f"The AQT docs allow exactly one measurement at the end of the circuit.", kind="aqt_measurement_crash")
+        if len(results) != 1 or set(results[0].measurements) != {"m"}:
+            return bad(f"AQT local simulator: expected one result with key 'm', got {results}", kind="aqt_local")
+        m = results[0].measurements["m"]
+        if m.shape != (1, nq):
+            return bad(f"AQT local simulator: measurements shape {m.shape}, expected {(1, nq)}", kind="aqt_local")
+        got[tuple(int(x) for x in m[0])] += ch.weight
+    resolved = cirq.resolve_parameters(circuit, resolver)
+    U = _ref_unitary([o for o in resolved.all_operations() if not cirq.is_measurement(o)], nq)
+    exp = {}
+    for i in range(2 ** nq):
+        p = float(abs(U[i, 0]) ** 2)
+        if p > 1e-9:
+            exp[_bits_be(i, nq)] = p
+    if not _cmp_dist(dict(got), exp, atol=2e-5):
+        return bad(f"AQT local simulator: distribution of sampled rows (column j = qubit j) {dict(got)} != Born distribution {exp} for {names} / {resolver}",
+                   kind="aqt_local")
+    if dict(results[0].params.param_dict) and {str(k_): v for k_, v in results[0].params.param_dict.items()} != resolver:
+        return bad(f"AQT local simulator: result params {results[0].params}", kind="aqt_local")
+    return good(nontrivial=len(exp) >= 2, paths=npaths)
+
+
+# ------------------------------------------------------------------------------------------------------------------
+# Pasqal
+
+
+def build_pasqal_letters(seed):
+    g = core.generic(seed)
+    a = sympy.Symbol("a")
+    q3 = [cirq_pasqal.ThreeDQubit(0, 0, 0), cirq_pasqal.ThreeDQubit(1, 0, 0), cirq_pasqal.ThreeDQubit(0, 1, 1)]
+    q2 = [cirq_pasqal.TwoDQubit(0, 0), cirq_pasqal.TwoDQubit(1, 0), cirq_pasqal.TwoDQubit(0, 1)]
+    qn = [cirq.NamedQubit("q0"), cirq.NamedQubit("q1"), cirq.NamedQubit("q2")]
+    out = {}
+    for tag, q in (("3d", q3), ("2d", q2), ("named", qn)):
+        L = [
+            ("X^g(0)", (cirq.X ** g).on(q[0])), ("Y^0.5(1)", (cirq.Y ** 0.5).on(q[1])), ("Z^a(2)", (cirq.Z ** a).on(q[2])), ("H(0)", cirq.H(q[0])),
+            ("PhX(a,.3)(1)", cirq.PhasedXPowGate(exponent=a, phase_exponent=0.3).on(q[1])), ("CZ(0,1)", cirq.CZ(q[0], q[1])),
+            ("CZ(2,0)", cirq.CZ(q[2], q[0])), ("CNOT(1,2)", cirq.CNOT(q[1], q[2])), ("CCX(0,1,2)", cirq.CCX(q[0], q[1], q[2])),
+            ("CCZ(2,1,0)", cirq.CCZ(q[2], q[1], q[0])), ("I(1)", cirq.I(q[1])), ("par(X^g)(0,2)", cirq.ParallelGate(cirq.X ** g, 2).on(q[0], q[2])),
+            ("M(2,0;m)", cirq.measure(q[2], q[0], key="m")), ("M(1;b)", cirq.measure(q[1], key="b")),
+        ]
+        out[tag] = (q, L)
+    return out
+
+
+PASQAL_RESOLVERS = [{"a": 0.25}, {"a": -1.5}]
+
+
+class FakePasqalApi:
+    """requests-level fake: records the submitted body/headers and answers with a result that encodes, for every
+    measurement key of the submitted circuit, the (row, column) of each bit."""
+
+    def __init__(self):
+        self.bodies = []
+        self.headers = []
+        self.results = {}
+        self.polls = 0
+
+    def post(self, url, headers=None, data=None, **kw):
+        self.bodies.append(data)
+        self.headers.append(dict(headers or {}))
+        tid = f"task{len(self.bodies)}"
+        circuit = cirq.read_json(json_text=data)
+        reps = int(headers["Repetitions"])
+        meas = {}
+        for op in circuit.all_operations():
+            if cirq.is_measurement(op):
+                key = cirq.measurement_key_name(op)
+                k = len(op.qubits)
+                meas[key] = np.array([[(r + c + len(key)) % 2 for c in range(k)] for r in range(reps)], dtype=np.int8)
+        self.results[tid] = cirq.to_json(cirq.ResultDict(params=cirq.ParamResolver({}), measurements=meas))
+        return _Resp(tid)
+
+    def get(self, url, headers=None, **kw):
+        tid = url.rsplit("/", 1)[1]
+        self.polls += 1
+        if self.polls % 2 == 1:
+            return _Resp("")  # not ready yet: the sampler polls again
+        return _Resp(self.results[tid])
+
+
+def pasqal_cases(tier):
+    out = []
+    n = 14
+    for tag in ("3d", "2d", "named"):
+        for r in range(len(PASQAL_RESOLVERS)):
+            for i in range(n):
+                out.append((tag, (i,), r))
+        for s in itertools.product(range(n), repeat=2):
+            out.append((tag, s, 0))
+        if tier == "thorough":
+            for s in itertools.product(range(n), repeat=3):
+                out.append((tag, s, 1))
+    return out
+
+
+def run_pasqal(case):
+    tag, seq, ri = case
+    qubits, L = _G["pasqal"][tag]
+    ops = [L[i][1] for i in seq]
+    names = [L[i][0] for i in seq]
+    resolver = PASQAL_RESOLVERS[ri]
+    is_meas = [cirq.is_measurement(o) for o in ops]
+    n_gates = len(ops) - sum(is_meas)
+    trailing = all(is_meas[n_gates:]) and not any(is_meas[:n_gates])
+    distinct = len(set(seq[n_gates:])) == len(seq[n_gates:])
+    if trailing and distinct and n_gates < len(ops):
+        circuit = cirq.Circuit([cirq.Moment([o]) for o in ops[:n_gates]] + [cirq.Moment(ops[n_gates:])])
+    else:
+        circuit = cirq.Circuit([cirq.Moment([o]) for o in ops])
+    if tag == "named":
+        device = cirq_pasqal.PasqalDevice(qubits)
+        gates_ok = True
+    else:
+        device = cirq_pasqal.PasqalVirtualDevice(control_radius=2.0, qubits=qubits)
+        gates_ok = not any(n.startswith(("CNOT", "CCX", "CCZ")) for n in names)
+    legal = trailing and distinct and gates_ok
+    sampler = cirq_pasqal.PasqalSampler(remote_host="http://pasqal.example", access_token="tok", device=device)
+    body = sampler._serialize_circuit(circuit, resolver)
+    back = cirq.read_json(json_text=body)
+    resolved = cirq.resolve_parameters(circuit, resolver)
+    if back != resolved:
+        return bad(f"Pasqal: request body does not read back as the resolved circuit\nsent: {resolved!r}\nread: {back!r}", kind="pasqal_body")
+    if cirq.is_parameterized(back):
+        return bad(f"Pasqal: request body still parameterised: {back!r}", kind="pasqal_body")
+    gate_ops = [o for o in back.all_operations() if not cirq.is_measurement(o)]
+    ref_ops = [o for o in resolved.all_operations() if not cirq.is_measurement(o)]
+    if gate_ops:
+        U1 = cirq.Circuit(gate_ops).unitary(qubit_order=qubits)
+        U2 = cirq.Circuit(ref_ops).unitary(qubit_order=qubits)
+        if not E.eq_exact(U2, U1, 1e-9):
+            return bad(f"Pasqal: unitary of the request body differs from the circuit's: {names}", kind="pasqal_body")
+    meas_ops = [o for o in ops if cirq.is_measurement(o)]
+    api = FakePasqalApi()
+    reps = 3
+    with _Patched(_pasqal_sampler_mod, "requests", api), _Patched(_pasqal_sampler_mod.time, "sleep", lambda s: None):
+        try:
+            rs = sampler.run_sweep(circuit, params=[resolver, PASQAL_RESOLVERS[1 - ri]], repetitions=reps)
+        except ValueError as e:
+            if legal:
+                return bad(f"Pasqal: legal circuit {names} refused by the device validation: {e}", kind="pasqal_validate")
+            return Res(skipped=True, nontrivial=False, counters={"rejected": 1})
+    if len(rs) != 2 or len(api.bodies) != 2:
+        return bad(f"Pasqal: 2 resolvers -> {len(rs)} results / {len(api.bodies)} submissions", kind="pasqal_sweep")
+    for j, r_ in enumerate((resolver, PASQAL_RESOLVERS[1 - ri])):
+        if cirq.read_json(json_text=api.bodies[j]) != cirq.resolve_parameters(circuit, r_):
+            return bad(f"Pasqal: submission {j} is not the circuit resolved with {r_}", kind="pasqal_sweep")
+        if api.headers[j].get("Repetitions") != str(reps) or api.headers[j].get("Authorization") != "tok":
+            return bad(f"Pasqal: headers {api.headers[j]}", kind="pasqal_sweep")
+        want = {}
+        for o in meas_ops:
+            key = cirq.measurement_key_name(o)
+            want[key] = [[(r + c + len(key)) % 2 for c in range(len(o.qubits))] for r in range(reps)]
+        got = {k: np.asarray(v).tolist() for k, v in rs[j].measurements.items()}
+        if got != want:
+            return bad(f"Pasqal: decoded result {got} != what the API sent {want}", kind="pasqal_result")
+    return good(nontrivial=len(ops) >= 1, circuits=2)
+
+
+# ------------------------------------------------------------------------------------------------------------------
+
+
+def stages(tier, seed):
+    _init(seed)
+    reset = lambda: _init(seed)
+    jb_cases, _ = job_batch_cases()
+    return [
+        CaseStage("ionq_letters", letter_cases(), run_letter, reset=reset, describe=describe_letter),
+        CaseStage("ionq_measurement_layouts", layout_cases(), run_layout, reset=reset,
+                  describe=lambda c: {"layout": _G["layouts"][c[0]].name, "prefix": c[1]}),
+        CaseStage("ionq_misc_contracts", misc_cases(), run_misc, reset=reset),
+        CaseStage("ionq_sequences", seq_cases(tier), run_seq, reset=reset, describe=describe_seq),
+        CaseStage("ionq_batches", batch_cases(tier), run_batch, reset=reset, describe=describe_batch),
+        CaseStage("ionq_qpu_results", qpu_cases(tier), run_qpu_hist, reset=reset),
+        CaseStage("ionq_simulator_results", sim_cases(tier), run_sim_hist, reset=reset),
+        CaseStage("ionq_simulator_normalisation", [0, 1, 2], run_sim_normalisation, reset=reset),
+        CaseStage("ionq_job_batches", jb_cases, run_job_batch, reset=reset),
+        CaseStage("ionq_service_loop", loop_cases(tier), run_loop, reset=reset,
+                  describe=lambda c: {"target": c[0], "letters": [(_G["seq_qis"] if c[1] == "q" else _G["seq_native"])[i][0] for i in c[2]],
+                                      "layout": _G["layouts"][c[3]].name}),
+        CaseStage("ionq_sampler_sweep_loop", [0, 1, 2], run_loop_sampler, reset=reset),
+        CaseStage("aqt_payloads", aqt_cases(tier), run_aqt, reset=reset, describe=describe_aqt),
+        CaseStage("aqt_legacy_converter", aqt_legacy_cases(tier), run_aqt_legacy, reset=reset),
+        CaseStage("aqt_local_simulator", aqt_local_cases(tier), run_aqt_local, reset=reset, describe=describe_aqt),
+        CaseStage("pasqal_body_and_results", pasqal_cases(tier), run_pasqal, reset=reset),
+    ]
